@@ -397,6 +397,13 @@ func (p *Parser) parseBuffer(buf []byte, last bool) (err error) {
 			}
 			off += i
 		case valQuote:
+			if 256 < len(p.mode) && p.mode[256] == 't' {
+				// A quote ends a token just as it does on the fast path
+				// of tokenStart: add the token then look at the quote again.
+				p.addToken(off)
+				off--
+				break
+			}
 			p.quoteDelim = b
 			start := off + 1
 			if len(buf) <= start {
